@@ -8,6 +8,7 @@ TRUSTED_BASE = [
     "no axioms: every Print Assumptions under Properties/*.v must report 'Closed under the global context'",
     "extraction: ExtrOcamlBasic only (Extract Inductive bool/option/unit/list/prod/sumbool, Extract Inlined Constant andb/orb/fst/snd/negb-style inlinings it declares); nat/positive/Z stay inductive; OCaml 4.13.1 + dune",
     "hand-written Gallina models (coq/Model/*.v) tied to /repo by the correspondence check: Go harness (harness/inpkg, overlaid in-package, rebuilt from /repo's working tree on every run) + checker/main.ml (history parsing, int encodings; linearization search untrusted, witness replayed through the extracted step)",
+    "translators (C03: harness/cmd/gotr, Go fragment -> Model/GoFrag.v terms, semantics = the embedding's interpreter; C11: harness/cmd/lockx, lock/access facts) are trusted; their output is regenerated from /repo on every run and a failed translation is a broken obligation",
     "modelled, not verified: Go runtime and standard library (sync, sync/atomic, context, time, reflect, channels, scheduler fairness, memory model)",
 ]
 ASSUMPTIONS = [
@@ -311,11 +312,14 @@ PROPS["C13"] = dict(
             corr_stage("C13K2", 250, 4000, feature=feat_c13, seeds=3)],
 )
 PROPS["C03"] = dict(
+    pre_coq=[lambda: c03_pre_coq()],
     level_text="Theorems (Properties/C03.v): DefaultCleaner/FixedBufferCleaner/cleanupLogic clamp specifications for every size and offset list over Z; "
                "on the Buffer model, for every schedule: the default cleaner never moves the base past a registered consumer's committed offset (so no "
                "offset error for a consumer that keeps reading) and not at all without consumers; ANY cleaner only advances the base; an evicted consumer "
-               "errs on every later Get; Slice/Size/Diff characterisation. Tie: exhaustive small-domain + seeded differential run of the Go functions, "
-               "and Buffer histories under FixedBufferCleaner.",
+               "errs on every later Get; Slice/Size/Diff characterisation. Tie: DefaultCleaner and FixedBufferCleaner are TRANSLATED from the current "
+               "source on every run (harness/cmd/gotr -> coq/Gen/ImplCleaners.v, a deep embedding of the Go fragment with an interpreter) and proved equal "
+               "to the model functions for every input (C03_*_source_is_model); plus exhaustive small-domain + seeded differential run of the Go "
+               "functions, and Buffer histories under FixedBufferCleaner.",
     level_note=_BUF_NOTE,
     rule="pure cleaners: EXHAUSTIVE over size 0..6 x offset lists of length <= L over -2..8 (L=3 quick, 4 thorough), fixed cleaner over "
          "max,target in -1..8 x size 0..8 x 6 offset lists, plus seeded large values; Go result must equal the model. non-trivial = "
@@ -359,7 +363,28 @@ PROPS["C19"] = dict(
 # ---------------------------------------------------------------------------------------------------------------
 def c11_pre_coq():
     rc, out = vlib.sh([os.path.join(vlib.VERIF, "bin", "c11_gen")], timeout=600, env=dict(os.environ, VERIF_REPO=vlib.REPO))
-    return "c11_gen: " + out.strip().split("\n")[-1][:200] + ("" if rc == 0 else " [FAILED rc=%d]" % rc)
+    return "c11_gen: " + out.strip().split("\n")[-1][:200] + ("" if rc == 0 else " [FAILED rc=%d]\n%s" % (rc, out[-1500:]))
+
+def c03_pre_coq():
+    """Translate the cleaner functions of the current source into the Go-fragment embedding (coq/Gen/ImplCleaners.v)."""
+    ok, outt = vlib.build_tools()
+    exe = os.path.join(vlib.CACHE, "tools", "gotr")
+    out = os.path.join(vlib.COQ, "Gen", "ImplCleaners.v")
+    os.makedirs(os.path.dirname(out), exist_ok=True)
+    tmp = out + ".tmp.%d" % os.getpid()
+    rc, txt = (1, outt) if not ok else vlib.sh([exe, "-repo", vlib.REPO, "-out", tmp], timeout=120)
+    if rc != 0 or not os.path.exists(tmp):
+        if os.path.exists(tmp):
+            os.remove(tmp)
+        # never leave a translation of an older tree in place
+        open(out, "w").write("(* gotr failed on the current source: see the check log *)\nDefinition translation_failed : nat := true.\n")
+        return "c03_gen: gotr [FAILED rc=%d]\n%s" % (rc, txt[-1500:])
+    new = open(tmp).read()
+    if os.path.exists(out) and open(out).read() == new:
+        os.remove(tmp)
+        return "c03_gen: cleaner functions translated from %s (unchanged)" % vlib.REPO
+    os.replace(tmp, out)
+    return "c03_gen: cleaner functions translated from %s (updated)" % vlib.REPO
 
 LIBFILES = ("attempt.go", "bigbuff.go", "buffer.go", "callable.go", "chancaster.go", "channel.go", "chanpubsub.go", "consumer.go",
             "context.go", "exclusive.go", "notifier.go", "retry.go", "sync.go", "worker.go", "workers.go")
